@@ -136,3 +136,7 @@ Example crossover_closure_nonvacuous :
   cross_check half half s [VAnonMap [(0%N, VInt 3)]; VAnonMap [(0%N, VInt 5); (4%N, VInt 7)]] (VAnonMap [(0%N, VInt 5); (4%N, VInt 7)]) = true /\
   cross_check half half s [VAnonMap [(0%N, VInt 3)]; VAnonMap [(0%N, VInt 5); (4%N, VInt 7)]] (VAnonMap [(0%N, VInt 3); (4%N, VInt 7)]) = true.
 Proof. vm_compute. repeat split. Qed.
+
+(** [Value::to_json] is the function [Codec.to_json] models: leaves written exactly, no rounding
+    (shape regenerated from the source; the values handed to the objective function are compared by the streams) *)
+Example to_json_shape : value_to_json_shape = true.  Proof. reflexivity. Qed.
